@@ -38,6 +38,9 @@ struct CommitBatch {
 	seq_num: AtomicU64,
 	count: u32, // Number of entries in the batch
 	applied: AtomicBool,
+	// Set (before `mark_applied`) when the commit failed after it was enqueued:
+	// whoever dequeues the batch completes it with this error instead of Ok.
+	failure: Mutex<Option<Error>>,
 	complete_tx: Mutex<Option<oneshot::Sender<Result<()>>>>,
 }
 
@@ -48,6 +51,7 @@ impl CommitBatch {
 			seq_num: AtomicU64::new(0),
 			count,
 			applied: AtomicBool::new(false),
+			failure: Mutex::new(None),
 			complete_tx: Mutex::new(Some(tx)),
 		});
 		(commit, rx)
@@ -67,6 +71,20 @@ impl CommitBatch {
 
 	fn is_applied(&self) -> bool {
 		self.applied.load(Ordering::Acquire)
+	}
+
+	/// Records that this (already enqueued) commit failed. Must be called
+	/// before `mark_applied`, so that the dequeuing thread sees it.
+	fn fail(&self, err: Error) {
+		*self.failure.lock() = Some(err);
+	}
+
+	/// The result the committer is to be woken with once the batch is dequeued.
+	fn outcome(&self) -> Result<()> {
+		match self.failure.lock().take() {
+			Some(err) => Err(err),
+			None => Ok(()),
+		}
 	}
 
 	fn complete(&self, result: Result<()>) {
@@ -337,15 +355,18 @@ impl CommitPipeline {
 					let stamp = seq_num + count - 1;
 					self.oracle.rollback(batch.entries.iter().map(|e| e.key.as_slice()), stamp);
 					// The batch is in `pending` and was never marked applied.
-					// Order matters: complete with Err FIRST, then mark_applied,
-					// so a concurrent publish() can't dequeue and call
-					// complete(Ok) before our Err is set.
-					commit_batch.complete(Err(e.clone()));
+					// Order matters: record the failure FIRST, then mark_applied,
+					// so a concurrent publish() can't dequeue the batch and
+					// complete it with Ok.
+					commit_batch.fail(e);
 					commit_batch.mark_applied();
 					// Release write_mutex before draining the queue.
 					drop(_guard);
 					self.publish();
-					return Err(e);
+					// Keep the semaphore permit until the slot has really been
+					// dequeued (it may sit behind an earlier, slower commit):
+					// the queue has exactly as many slots as there are permits.
+					return complete_rx.await.map_err(|_| Error::PipelineStall)?;
 				}
 			}
 		};
@@ -374,32 +395,27 @@ impl CommitPipeline {
 		//     the memtable; a later same-key writer's higher seq shadows it.
 		// =========================================================================
 
-		let apply_err = if let Err(ref e) = apply_result {
+		if let Err(ref e) = apply_result {
 			// Roll back this txn's oracle entries so subsequent same-key
 			// commits don't false-abort against a ghost stamp.
 			let count = batch.count() as u64;
 			let stamp = allocated_seq + count - 1;
 			self.oracle.rollback(batch.entries.iter().map(|e| e.key.as_slice()), stamp);
 
-			// Order matters: complete with Err FIRST, then mark_applied below.
+			// Order matters: record the failure FIRST, then mark_applied below.
 			// Otherwise a concurrent publish() could dequeue the (already
-			// applied) batch and call complete(Ok) before our Err lands.
-			let err = Error::CommitFail(e.to_string());
-			commit_batch.complete(Err(err.clone()));
-			Some(err)
-		} else {
-			None
-		};
+			// applied) batch and complete it with Ok.
+			commit_batch.fail(Error::CommitFail(e.to_string()));
+		}
 
 		commit_batch.mark_applied();
 
 		// Publish (multi-consumer) - MUST always run to drain queue
 		self.publish();
 
-		if let Some(err) = apply_err {
-			return Err(err);
-		}
-
+		// Success and failure alike return only once the batch has been
+		// dequeued, i.e. the semaphore permit is held for as long as the queue
+		// slot is occupied (the slot may sit behind an earlier, slower commit).
 		complete_rx.await.map_err(|_| Error::PipelineStall)?
 	}
 
@@ -439,8 +455,8 @@ impl CommitPipeline {
 						}
 					}
 
-					// Complete this batch
-					batch.complete(Ok(()));
+					// Complete this batch (with the failure recorded for it, if any)
+					batch.complete(batch.outcome());
 				}
 				None => {
 					// No more applied batches, done
